@@ -11,6 +11,9 @@ CONSTANTS
     MaxNow = 100000000
     MaxOps = 100000000
     MaxQ = 1000
+    MaxLen = 65507
+    BigOn = 3
+    WithFault = TRUE
     EmptyOn = 1
     Hist = TRUE
 CONSTRAINT Furthest
